@@ -7,6 +7,7 @@ import (
 	"go/token"
 	"go/types"
 	"hash/fnv"
+	"strings"
 )
 
 type Loc interface{}
@@ -18,7 +19,8 @@ type varLoc struct {
 
 type heapLoc struct {
 	prefix string
-	addr   Term
+	rgn    Term
+	off    Term
 	prov   string // non-empty: raw byte memory accessed at another type
 }
 
@@ -111,6 +113,13 @@ func (x *Exec) cond(s *State, fr *Frame, e ast.Expr) Term {
 	sc, ok := v.(*Scalar)
 	if !ok || sc.T.Sort != SBool {
 		unsup("condition is not boolean: %s", exprText(x.w.Fset, e))
+	}
+	if x.spec == 0 && (strings.Contains(sc.T.S, "(forall ") || strings.Contains(sc.T.S, "(exists ")) {
+		// a quantified formula used as a branch condition: name it, so that it never
+		// ends up inside the ite condition of a merged value
+		c := x.ctx.Fresh("qcond", SBool)
+		s.facts = append(s.facts, Eq(c, sc.T))
+		return c
 	}
 	n := x.ctx.Share(sc.T)
 	if p, ok := x.parts[sc.T.S]; ok && n.S != sc.T.S {
@@ -353,9 +362,9 @@ func (x *Exec) compositeLit(s *State, fr *Frame, n *ast.CompositeLit) Value {
 	case *types.Array:
 		a := x.allocArray(s, u, u.Len() <= 16, "lit")
 		if u.Len() > 16 {
-			x.fillZero(s, u.Elem(), a.Base, I64(u.Len()))
+			x.fillZero(s, u.Elem(), a.Rgn, a.Off, I64(u.Len()))
 		}
-		x.litElems(s, fr, n, u.Elem(), a.Base)
+		x.litElems(s, fr, n, u.Elem(), a.Rgn)
 		return a
 	case *types.Slice:
 		// length = max index + 1
@@ -375,14 +384,10 @@ func (x *Exec) compositeLit(s *State, fr *Frame, n *ast.CompositeLit) Value {
 		if x.opaque && isByteSlice(t) {
 			return &Scalar{T: x.ctx.Fresh("byteslit", SBytes)}
 		}
-		base := x.ctx.Fresh("lit$slice", SBV64)
-		x.addRegion(s, region{mem: memName(u.Elem()), base: base, size: I64(cnt), tag: "alloc"}, true)
-		x.fillZero(s, u.Elem(), base, I64(cnt))
-		x.litElems(s, fr, n, u.Elem(), base)
-		if cnt == 0 {
-			// empty non-nil slice
-		}
-		return &SliceV{Ptr: base, Len: I64(cnt), Cap: I64(cnt)}
+		rgn := x.newRegion(s, memName(u.Elem()), "alloc")
+		x.fillZero(s, u.Elem(), rgn, I64(0), I64(cnt))
+		x.litElems(s, fr, n, u.Elem(), rgn)
+		return &SliceV{Rgn: rgn, Off: I64(0), Len: I64(cnt), Cap: I64(cnt)}
 	case *types.Map:
 		return &Scalar{T: x.ctx.Fresh("maplit", SBV64)}
 	}
@@ -390,7 +395,7 @@ func (x *Exec) compositeLit(s *State, fr *Frame, n *ast.CompositeLit) Value {
 	return nil
 }
 
-func (x *Exec) litElems(s *State, fr *Frame, n *ast.CompositeLit, et types.Type, base Term) {
+func (x *Exec) litElems(s *State, fr *Frame, n *ast.CompositeLit, et types.Type, rgn Term) {
 	idx := int64(0)
 	for _, el := range n.Elts {
 		val := el
@@ -409,7 +414,7 @@ func (x *Exec) litElems(s *State, fr *Frame, n *ast.CompositeLit, et types.Type,
 			v = x.expr(s, fr, val)
 			v = x.convertTo(s, fr, v, fr.info.TypeOf(val), et)
 		}
-		x.store(s, memName(et), et, Add64(base, I64(idx)), v)
+		x.store(s, memName(et), et, rgn, I64(idx), v)
 		idx++
 	}
 }
@@ -456,7 +461,7 @@ func (x *Exec) lvalue(s *State, fr *Frame, e ast.Expr) Loc {
 		}
 		if v, ok := s.vars[obj]; ok {
 			if hv, ok := v.(*heapVar); ok {
-				return &heapLoc{prefix: memName(obj.Type()), addr: hv.addr}
+				return &heapLoc{prefix: memName(obj.Type()), rgn: hv.rgn, off: I64(0)}
 			}
 		} else {
 			// global
@@ -469,7 +474,7 @@ func (x *Exec) lvalue(s *State, fr *Frame, e ast.Expr) Loc {
 				obj := fr.info.Uses[n.Sel]
 				if v, ok := s.vars[obj]; ok {
 					if hv, ok := v.(*heapVar); ok {
-						return &heapLoc{prefix: memName(obj.Type()), addr: hv.addr}
+						return &heapLoc{prefix: memName(obj.Type()), rgn: hv.rgn, off: I64(0)}
 					}
 					return &varLoc{obj: obj}
 				}
@@ -497,8 +502,8 @@ func (x *Exec) lvalue(s *State, fr *Frame, e ast.Expr) Loc {
 		}
 		for _, i := range si.Index() {
 			if pt, ok := t.Underlying().(*types.Pointer); ok {
-				pv := x.readLoc(s, loc, t).(*Scalar)
-				x.nilCheck(s, fr, pv.T, n.Pos(), exprText(x.w.Fset, n))
+				pv := x.readLoc(s, loc, t).(*PtrV)
+				x.nilCheck(s, fr, pv.Rgn, n.Pos(), exprText(x.w.Fset, n))
 				t = pt.Elem()
 				loc = x.ptrLoc(pv, t)
 			}
@@ -508,7 +513,7 @@ func (x *Exec) lvalue(s *State, fr *Frame, e ast.Expr) Loc {
 			case *varLoc:
 				loc = &varLoc{obj: l.obj, path: append(append([]int(nil), l.path...), i)}
 			case *heapLoc:
-				loc = &heapLoc{prefix: l.prefix + "." + f.Name(), addr: l.addr}
+				loc = &heapLoc{prefix: l.prefix + "." + f.Name(), rgn: l.rgn, off: l.off}
 			case *valLoc:
 				sv, ok := l.v.(*StructV)
 				if !ok {
@@ -537,23 +542,23 @@ func (x *Exec) lvalue(s *State, fr *Frame, e ast.Expr) Loc {
 				unsup("indexing an opaque slice")
 			}
 			x.boundsCheck(s, fr, i, sv.Len, n.Pos(), "index", exprText(x.w.Fset, n))
-			return &heapLoc{prefix: memName(u.Elem()), addr: x.ctx.Share(Add64(sv.Ptr, i))}
+			return &heapLoc{prefix: memName(u.Elem()), rgn: sv.Rgn, off: x.ctx.Share(Add64(sv.Off, i))}
 		case *types.Array:
 			av, ok := x.expr(s, fr, n.X).(*ArrayRef)
 			if !ok {
 				unsup("indexing non-array value")
 			}
 			x.boundsCheck(s, fr, i, I64(av.N), n.Pos(), "index", exprText(x.w.Fset, n))
-			return &heapLoc{prefix: memName(u.Elem()), addr: x.ctx.Share(Add64(av.Base, i))}
+			return &heapLoc{prefix: memName(u.Elem()), rgn: av.Rgn, off: x.ctx.Share(Add64(av.Off, i))}
 		case *types.Pointer:
 			at, ok := u.Elem().Underlying().(*types.Array)
 			if !ok {
 				unsup("index of pointer to %s", u.Elem())
 			}
-			pv := x.expr(s, fr, n.X).(*Scalar)
-			x.nilCheck(s, fr, pv.T, n.Pos(), exprText(x.w.Fset, n))
+			pv := x.expr(s, fr, n.X).(*PtrV)
+			x.nilCheck(s, fr, pv.Rgn, n.Pos(), exprText(x.w.Fset, n))
 			x.boundsCheck(s, fr, i, I64(at.Len()), n.Pos(), "index", exprText(x.w.Fset, n))
-			return &heapLoc{prefix: memName(at.Elem()), addr: x.ctx.Share(Add64(pv.T, i))}
+			return &heapLoc{prefix: memName(at.Elem()), rgn: pv.Rgn, off: x.ctx.Share(Add64(pv.Off, i))}
 		case *types.Map:
 			unsup("map element as lvalue")
 		}
@@ -563,11 +568,11 @@ func (x *Exec) lvalue(s *State, fr *Frame, e ast.Expr) Loc {
 		if !ok {
 			unsup("deref of non-pointer")
 		}
-		pv, ok := x.expr(s, fr, n.X).(*Scalar)
+		pv, ok := x.expr(s, fr, n.X).(*PtrV)
 		if !ok {
-			unsup("deref of non-scalar")
+			unsup("deref of non-pointer value")
 		}
-		x.nilCheck(s, fr, pv.T, n.Pos(), exprText(x.w.Fset, n))
+		x.nilCheck(s, fr, pv.Rgn, n.Pos(), exprText(x.w.Fset, n))
 		return x.ptrLoc(pv, pt.Elem())
 	case *ast.CompositeLit, *ast.CallExpr:
 		return &valLoc{v: x.expr(s, fr, e)}
@@ -577,18 +582,18 @@ func (x *Exec) lvalue(s *State, fr *Frame, e ast.Expr) Loc {
 }
 
 // ptrLoc is the location a pointer value designates when dereferenced at type elem.
-func (x *Exec) ptrLoc(pv *Scalar, elem types.Type) *heapLoc {
+func (x *Exec) ptrLoc(pv *PtrV, elem types.Type) *heapLoc {
 	def := memName(elem)
 	if pv.Prov == "" || pv.Prov == def {
-		return &heapLoc{prefix: def, addr: pv.T}
+		return &heapLoc{prefix: def, rgn: pv.Rgn, off: pv.Off}
 	}
 	if pv.Prov == "uint8" && isInteger(elem) {
 		// unsafe cast of a byte pointer
-		return &heapLoc{prefix: "uint8", addr: pv.T, prov: "uint8"}
+		return &heapLoc{prefix: "uint8", rgn: pv.Rgn, off: pv.Off, prov: "uint8"}
 	}
 	// pointer to a field embedded in a larger heap object: the field lives in the
 	// memories of the enclosing type
-	return &heapLoc{prefix: pv.Prov, addr: pv.T}
+	return &heapLoc{prefix: pv.Prov, rgn: pv.Rgn, off: pv.Off}
 }
 
 func (x *Exec) addressable(fr *Frame, e ast.Expr) bool {
@@ -651,10 +656,10 @@ func (x *Exec) readLoc(s *State, loc Loc, t types.Type) Value {
 				unsup("unsafe read of %s from %s memory", t, l.prov)
 			}
 			w := x.width(t) / 8
-			mem := x.mem(s, "uint8", BV(8))
+			mem := x.ctx.Share(x.inner(s, "uint8", BV(8), l.rgn))
 			var parts Term
 			for k := 0; k < w; k++ {
-				b := Select(mem, Add64(l.addr, I64(int64(k))))
+				b := Select(mem, Add64(l.off, I64(int64(k))))
 				if k == 0 {
 					parts = b
 				} else {
@@ -664,9 +669,9 @@ func (x *Exec) readLoc(s *State, loc Loc, t types.Type) Value {
 			return &Scalar{T: x.ctx.Share(parts)}
 		}
 		if at, ok := t.Underlying().(*types.Array); ok {
-			return &ArrayRef{Base: x.embBase(s, l.prefix, at, l.addr), N: at.Len()}
+			return &ArrayRef{Rgn: x.embRgn(s, l.prefix, at, l.rgn, l.off), Off: I64(0), N: at.Len()}
 		}
-		return x.load(s, l.prefix, t, l.addr)
+		return x.load(s, l.prefix, t, l.rgn, l.off)
 	}
 	unsup("readLoc %T", loc)
 	return nil
@@ -685,7 +690,7 @@ func (x *Exec) writeLoc(s *State, fr *Frame, loc Loc, t types.Type, v Value) {
 		if l.prov != "" {
 			unsup("unsafe write through cast pointer")
 		}
-		x.store(s, l.prefix, t, l.addr, v)
+		x.store(s, l.prefix, t, l.rgn, l.off, v)
 	case *valLoc:
 		unsup("assignment to non-addressable value")
 	default:
@@ -718,7 +723,7 @@ func (x *Exec) copyValue(s *State, t types.Type, v Value) Value {
 			return v
 		}
 		n := x.allocArray(s, u, false, "copy")
-		x.copyArray(s, u, n.Base, a.Base)
+		x.copyElems(s, u.Elem(), n.Rgn, n.Off, a.Rgn, a.Off, I64(u.Len()))
 		return n
 	case *types.Struct:
 		sv, ok := v.(*StructV)
@@ -750,7 +755,7 @@ func hasArray(u *types.Struct) bool {
 
 func (x *Exec) sliceExpr(s *State, fr *Frame, n *ast.SliceExpr) Value {
 	xt := fr.info.TypeOf(n.X)
-	var ptr, ln, cp Term
+	var rgn, ptr, ln, cp Term
 	var et types.Type
 	isStr := false
 	switch u := xt.Underlying().(type) {
@@ -759,20 +764,21 @@ func (x *Exec) sliceExpr(s *State, fr *Frame, n *ast.SliceExpr) Value {
 		if !ok {
 			unsup("slicing an opaque slice")
 		}
-		ptr, ln, cp, et = sv.Ptr, sv.Len, sv.Cap, u.Elem()
+		rgn, ptr, ln, cp, et = sv.Rgn, sv.Off, sv.Len, sv.Cap, u.Elem()
 	case *types.Array:
 		av, ok := x.expr(s, fr, n.X).(*ArrayRef)
 		if !ok {
 			unsup("slicing non-array")
 		}
-		ptr, ln, cp, et = av.Base, I64(av.N), I64(av.N), u.Elem()
+		rgn, ptr, ln, cp, et = av.Rgn, av.Off, I64(av.N), I64(av.N), u.Elem()
 	case *types.Pointer:
 		at, ok := u.Elem().Underlying().(*types.Array)
 		if !ok {
 			unsup("slicing pointer to %s", u.Elem())
 		}
-		pv := x.expr(s, fr, n.X).(*Scalar)
-		ptr, ln, cp, et = pv.T, I64(at.Len()), I64(at.Len()), at.Elem()
+		pv := x.expr(s, fr, n.X).(*PtrV)
+		x.nilCheck(s, fr, pv.Rgn, n.Pos(), exprText(x.w.Fset, n))
+		rgn, ptr, ln, cp, et = pv.Rgn, pv.Off, I64(at.Len()), I64(at.Len()), at.Elem()
 	case *types.Basic:
 		isStr = true
 		sv := x.expr(s, fr, n.X).(*Scalar)
@@ -785,7 +791,11 @@ func (x *Exec) sliceExpr(s *State, fr *Frame, n *ast.SliceExpr) Value {
 			return def
 		}
 		v := x.expr(s, fr, e).(*Scalar)
-		return x.ctx.Share(Resize(v.T, 64, true))
+		signed := isSigned(fr.info.TypeOf(e))
+		if b, ok := fr.info.TypeOf(e).Underlying().(*types.Basic); ok && b.Info()&types.IsUntyped != 0 {
+			signed = true
+		}
+		return x.ctx.Share(Resize(v.T, 64, signed))
 	}
 	lo := idx(n.Low, I64(0))
 	hi := idx(n.High, ln)
@@ -795,7 +805,7 @@ func (x *Exec) sliceExpr(s *State, fr *Frame, n *ast.SliceExpr) Value {
 		x.boundsCheck(s, fr, mx, cp, n.Pos(), "slice", text)
 		x.boundsCheck(s, fr, hi, mx, n.Pos(), "slice", text)
 		x.boundsCheck(s, fr, lo, hi, n.Pos(), "slice", text)
-		return &SliceV{Ptr: x.ctx.Share(Add64(ptr, lo)), Len: x.ctx.Share(Sub64(hi, lo)), Cap: x.ctx.Share(Sub64(mx, lo))}
+		return &SliceV{Rgn: rgn, Off: x.ctx.Share(Add64(ptr, lo)), Len: x.ctx.Share(Sub64(hi, lo)), Cap: x.ctx.Share(Sub64(mx, lo))}
 	}
 	x.boundsCheck(s, fr, hi, cp, n.Pos(), "slice", text)
 	x.boundsCheck(s, fr, lo, hi, n.Pos(), "slice", text)
@@ -805,7 +815,7 @@ func (x *Exec) sliceExpr(s *State, fr *Frame, n *ast.SliceExpr) Value {
 		return &Scalar{T: r}
 	}
 	_ = et
-	return &SliceV{Ptr: x.ctx.Share(Add64(ptr, lo)), Len: x.ctx.Share(Sub64(hi, lo)), Cap: x.ctx.Share(Sub64(cp, lo))}
+	return &SliceV{Rgn: rgn, Off: x.ctx.Share(Add64(ptr, lo)), Len: x.ctx.Share(Sub64(hi, lo)), Cap: x.ctx.Share(Sub64(cp, lo))}
 }
 
 func (x *Exec) unary(s *State, fr *Frame, n *ast.UnaryExpr) Value {
@@ -815,10 +825,9 @@ func (x *Exec) unary(s *State, fr *Frame, n *ast.UnaryExpr) Value {
 		if cl, ok := ast.Unparen(n.X).(*ast.CompositeLit); ok {
 			t := fr.info.TypeOf(cl)
 			v := x.compositeLit(s, fr, cl)
-			addr := x.ctx.Fresh("new$"+sanitize(memName(t)), SBV64)
-			x.addRegion(s, region{mem: memName(t), base: addr, size: I64(1), tag: "alloc"}, true)
-			x.store(s, memName(t), t, addr, v)
-			return &Scalar{T: addr}
+			rgn := x.newRegion(s, memName(t), "alloc")
+			x.store(s, memName(t), t, rgn, I64(0), v)
+			return &PtrV{Rgn: rgn, Off: I64(0)}
 		}
 		loc := x.lvalue(s, fr, n.X)
 		switch l := loc.(type) {
@@ -829,7 +838,7 @@ func (x *Exec) unary(s *State, fr *Frame, n *ast.UnaryExpr) Value {
 			t := fr.info.TypeOf(n.X)
 			if at, ok := t.Underlying().(*types.Array); ok {
 				// &arr: pointer to array = address of first element in element memory
-				return &Scalar{T: x.embBase(s, l.prefix, at, l.addr), Prov: memName(at.Elem())}
+				return &PtrV{Rgn: x.embRgn(s, l.prefix, at, l.rgn, l.off), Off: I64(0), Prov: memName(at.Elem())}
 			}
 			p := l.prefix
 			if p == memName(t) {
@@ -838,13 +847,13 @@ func (x *Exec) unary(s *State, fr *Frame, n *ast.UnaryExpr) Value {
 			if l.prefix == "uint8" {
 				p = "uint8"
 			}
-			return &Scalar{T: l.addr, Prov: p}
+			return &PtrV{Rgn: l.rgn, Off: l.off, Prov: p}
 		case *varLoc:
 			// &local of array type: arrays are references
 			if len(l.path) == 0 {
 				if av, ok := x.readVar(s, l.obj).(*ArrayRef); ok {
 					at := l.obj.Type().Underlying().(*types.Array)
-					return &Scalar{T: av.Base, Prov: memName(at.Elem())}
+					return &PtrV{Rgn: av.Rgn, Off: av.Off, Prov: memName(at.Elem())}
 				}
 			}
 			unsup("address of non-escaping variable %s (escape analysis missed it)", l.obj.Name())
@@ -962,13 +971,13 @@ func (x *Exec) binop(s *State, fr *Frame, op token.Token, l, r Value, lt, rt typ
 		case lok && rok:
 			// slice compared with nil
 			if isNilType(lt) {
-				eq = Eq(rs.Ptr, I64(0))
+				eq = Eq(rs.Rgn, I64(0))
 			} else if isNilType(rt) {
-				eq = Eq(ls.Ptr, I64(0))
-			} else if rs.Ptr.IsC && rs.Ptr.C == 0 {
-				eq = Eq(ls.Ptr, I64(0))
-			} else if ls.Ptr.IsC && ls.Ptr.C == 0 {
-				eq = Eq(rs.Ptr, I64(0))
+				eq = Eq(ls.Rgn, I64(0))
+			} else if rs.Rgn.IsC && rs.Rgn.C == 0 {
+				eq = Eq(ls.Rgn, I64(0))
+			} else if ls.Rgn.IsC && ls.Rgn.C == 0 {
+				eq = Eq(rs.Rgn, I64(0))
 			} else {
 				unsup("slice comparison")
 			}
@@ -1248,9 +1257,9 @@ func (x *Exec) convert(s *State, fr *Frame, v Value, from, to types.Type, pos to
 					x.oblige(s, "nowrap", "nowrap@"+shortText(text), ok, pos, text)
 				}
 			}
-			return &Scalar{T: x.ctx.Share(res), Prov: sc.Prov}
+			return &Scalar{T: x.ctx.Share(res)}
 		case fb.Kind() == types.UnsafePointer && tb.Kind() == types.Uintptr, fb.Kind() == types.Uintptr && tb.Kind() == types.UnsafePointer:
-			return v
+			unsup("conversion between unsafe.Pointer and uintptr")
 		case fb.Info()&types.IsString != 0 && tb.Info()&types.IsString != 0:
 			return v
 		case tb.Info()&types.IsFloat != 0 || fb.Info()&types.IsFloat != 0:
@@ -1264,19 +1273,19 @@ func (x *Exec) convert(s *State, fr *Frame, v Value, from, to types.Type, pos to
 	}
 	// pointer <-> unsafe.Pointer
 	if _, ok := to.Underlying().(*types.Pointer); ok {
-		if sc, ok := v.(*Scalar); ok {
-			return sc
+		if pv, ok := v.(*PtrV); ok {
+			return pv
 		}
 	}
 	if tok && tb.Kind() == types.UnsafePointer {
-		if sc, ok := v.(*Scalar); ok {
-			p := sc.Prov
+		if pv, ok := v.(*PtrV); ok {
+			p := pv.Prov
 			if p == "" {
 				if pt, ok := from.Underlying().(*types.Pointer); ok {
 					p = memName(pt.Elem())
 				}
 			}
-			return &Scalar{T: sc.T, Prov: p}
+			return &PtrV{Rgn: pv.Rgn, Off: pv.Off, Prov: p}
 		}
 	}
 	// string <-> []byte
@@ -1284,7 +1293,7 @@ func (x *Exec) convert(s *State, fr *Frame, v Value, from, to types.Type, pos to
 		if isByteSlice(from) {
 			switch bv := v.(type) {
 			case *SliceV:
-				str := x.ctx.UF("str$of", SStr, x.mem(s, "uint8", BV(8)), bv.Ptr, bv.Len)
+				str := x.ctx.UF("str$of", SStr, x.ctx.Share(x.inner(s, "uint8", BV(8), bv.Rgn)), bv.Off, bv.Len)
 				s.assume(Eq(x.strlen(str), bv.Len))
 				return &Scalar{T: str}
 			case *Scalar:
@@ -1305,17 +1314,16 @@ func (x *Exec) convert(s *State, fr *Frame, v Value, from, to types.Type, pos to
 			return &Scalar{T: b}
 		}
 		n := x.strlen(sc.T)
-		base := x.ctx.Fresh("bytes$ofstr", SBV64)
-		x.addRegion(s, region{mem: "uint8", base: base, size: n, tag: "alloc"}, true)
-		x.havocRange(s, types.Typ[types.Uint8], base, n)
-		return &SliceV{Ptr: base, Len: n, Cap: n}
+		rgn := x.newRegion(s, "uint8", "alloc")
+		x.havocRange(s, types.Typ[types.Uint8], rgn, I64(0), n)
+		return &SliceV{Rgn: rgn, Off: I64(0), Len: n, Cap: n}
 	}
 	// slice to array pointer / array
 	if pt, ok := to.Underlying().(*types.Pointer); ok {
 		if at, ok := pt.Elem().Underlying().(*types.Array); ok {
 			if sv, ok := v.(*SliceV); ok {
 				x.boundsCheck(s, fr, I64(at.Len()), sv.Len, pos, "slice", text)
-				return &Scalar{T: sv.Ptr, Prov: memName(at.Elem())}
+				return &PtrV{Rgn: sv.Rgn, Off: sv.Off, Prov: memName(at.Elem())}
 			}
 		}
 	}
